@@ -306,6 +306,7 @@ def applyTerm (u : U) (a : String) : U × List Act :=
   else if a = "ack" then (u, [.ack])
   else if a = "kill-group" then (u, [.kill .kill])
   else if a = "break:Killed" then ({ u with phase := .running }, [])
+  else if a = "break:Exited" then ({ u with phase := .running }, [])
   else (u, [.panic])
 
 def guardTerm (u : U) (g : String) : Bool :=
